@@ -16,6 +16,9 @@ func ToError(err error) *Error {
 	rerr, ok := err.(*Error)
 	if !ok {
 		rerr = InternalError(err)
+	} else if rerr == nil {
+		// A nil *Error has no code or message to respond with.
+		rerr = &Error{Code: CodeInternalError, Message: "Internal error: nil *Error"}
 	}
 	return rerr
 }
